@@ -59,6 +59,7 @@ def run_all(seeds, opts, tier, rows):
                     open(os.path.join(d, "check_%s_latest.txt" % c), "w").write(p.stdout[-6000:])
         finally:
             sh(["git", "-C", REPO, "checkout", "--", "."])
+            sh(["git", "-C", REPO, "clean", "-fdq", "--", "cmd", "shared"])   # files a seed added
         json.dump(meta, open(mp, "w"), indent=1)
     left = sh(["git", "-C", REPO, "status", "--short"]).stdout.strip()
     if left:
